@@ -623,3 +623,13 @@ M("snap8-no-upper-bound", "C07", "_lowlevel_cpython_311.py", "                as
 M("snap8-bound-deleted", "C07", "_lowlevel_cpython_311.py", "                assert stack_start_offset <= stack_top_offset <= end_offset\n", "                pass\n", "SNAP-8")
 T("snap8-twin-split-bound", "C07", "_lowlevel_cpython_311.py", "                assert stack_start_offset <= stack_top_offset <= end_offset\n", "                assert stack_start_offset <= stack_top_offset\n                assert end_offset >= stack_top_offset\n")
 
+# ---------------------------------------------------------------- WF-1 / WF-2 (code the 3.12 suite never imports)
+L310 = "_lowlevel_cpython_310.py"
+M("wf2-310-no-return", "C01", L310, "    details.stack = [object_from_id_map.get(value) for value in stack]\n\n    return details\n", "    details.stack = [object_from_id_map.get(value) for value in stack]\n", "WF-2")
+M("wf1-310-details-unbound", "C01", L310, "    details = FrameDetails()\n", "", "WF-1")
+M("wf1-310-co-unbound", "C01", L310, "    co = frame.f_code\n", "", "WF-1")
+M("wf1-lowlevel-helper-renamed", "C02", LL, "def _parse_exception_table(", "def _parse_exception_table_(", ["WF-1", "VER-3"], accept_analysis_error=True)
+M("wf3-310-finallyblock-keyword", "C01", L310, "                FrameDetails.FinallyBlock(\n                    handler=block.b_handler * offset_mult,", "                FrameDetails.FinallyBlock(\n                    handler_offset=block.b_handler * offset_mult,", ["WF-3", "FORM-1", "FORM-2"], accept_analysis_error=True)
+M("wf3-lowlevel-describe-extra-arg", "C08", LL, "            store_to = describe_assignment_target(insns, idx + 1)\n", "            store_to = describe_assignment_target(insns, idx + 1, insn)\n", ["WF-3", "OPC-3"], accept_analysis_error=True)
+M("wf3-extract-missing-arg", "C05", EX, "    it = extract_iter(stackitem, errors)\n", "    it = extract_iter(stackitem)\n", ["WF-3"], accept_analysis_error=True)
+
